@@ -152,7 +152,11 @@ def check(ctx, rep):
         why = "no single whole-slice loop"
         if len(loops) == 1:
             lp = loops[0]
-            trav = strip(lp["init"] or ("?",)) == ("param", 2) and "slice::IterMut" in (lp["resolved"] or "")
+            ini = strip(lp["init"] or ("?",))
+            if util.is_call(ini, "core::slice::<impl [T]>::iter_mut"):
+                old = se.call_old.get((ini[3][:2], 0))
+                ini = ("param", 2) if old == ("deref", ("param", 2)) else ini
+            trav = ini == ("param", 2) and "slice::IterMut" in (lp["resolved"] or "")
             elem_in = ("deref", lp["elem"])
             writes = [(k, v) for k, v in se.assigns.items() if v[0] == elem_in]
             if trav and len(writes) == 1:
@@ -197,6 +201,8 @@ def ksa(ctx, rep):
     body = se.body
     calls = [se.term_info[b] for b in sorted(se.term_info) if se.term_info[b].get("k") == "call"]
     fe = [c for c in calls if c["name"] == "std::iter::Iterator::for_each"]
+    if len(fe) == 0:
+        return ksa_loops(ctx, rep, se)
     if len(fe) != 2:
         rep.violation("ksa", fn, "shape", "expected two for_each passes (identity init, key mixing), found %d" % len(fe), body.loc())
         return
@@ -267,3 +273,59 @@ def ksa(ctx, rep):
             good = got_j == want_j and got_S == want_S and others == 0
             desc = "j' = %s; S' = %s" % (arith.show(got_j) if got_j else "?", arith.show(got_S)[:120] if got_S else "?")
     rep.check(good, "ksa", fn + "::{closure#1}", "mixing-step", "j' = j +8 S[n] +8 key byte; swap(S[n], S[j'])", "KSA mixing step is " + desc, c1.body.loc() if c1 else None)
+
+
+def ksa_loops(ctx, rep, se):
+    """the KSA written with two `for` loops instead of for_each closures"""
+    from rules import algos
+
+    fn = "rc4::Rc4::key_scheduling_algorithm"
+    body = se.body
+    fi = algos.for_info(ctx, se)
+    p1 = p2 = None
+    for head, (elem, src, lp) in fi.items():
+        if util.is_call(src, "std::iter::Iterator::enumerate") and util.is_call(strip(src[2][0]), "core::slice::<impl [T]>::iter_mut"):
+            p1 = (head, elem, src, lp)
+        elif util.is_call(src, "std::iter::Iterator::zip"):
+            p2 = (head, elem, src, lp)
+    if not p1 or not p2 or len(fi) != 2:
+        rep.violation("ksa", fn, "shape", "expected the identity-init pass and the key-mixing pass (for_each or for loops)", body.loc())
+        return
+    fs = ctx.fb.adt_fields("rc4::Rc4")
+    si = [i for i, f in enumerate(fs) if ctx.fb.ty(f["ty"]).k == "array"][0]
+    # pass 1: for (n, x) in self.state.iter_mut().enumerate() { *x = n as u8 }
+    head, elem, src, lp = p1
+    im = strip(src[2][0])
+    old = se.call_old.get((im[3][:2], 0))
+    over_state = old == ("field", ("deref", ("param", 1)), si)
+    stores = [(loc, v) for (bi, si_), (loc, v) in se.assigns.items() if loc[0] == "deref" and strip(loc[1]) == ("field", elem, 1)]
+    init_ok = over_state and len(stores) == 1 and strip(stores[0][1]) == ("cast", "IntToInt", ("field", elem, 0), "u8")
+    rep.check(init_ok, "ksa", fn, "identity-init", "S[n] = n for every n (enumerate over the whole state)", "state initialisation is not S[n] = n over iter_mut().enumerate()", body.loc())
+    # pass 2: for (n, k) in (0..256).zip(key.iter().cycle())
+    head, elem, src, lp = p2
+    a, b = strip(src[2][0]), strip(src[2][1])
+    rng_ok = a[0] == "agg" and a[2] == "std::ops::Range" and tuple(x[:2] for x in a[4]) == (("int", 0), ("int", 256))
+    cyc_ok = util.is_call(b, "std::iter::Iterator::cycle") and util.is_call(strip(b[2][0]), "core::slice::<impl [T]>::iter") and strip(strip(b[2][0])[2][0]) == ("param", 2)
+    rep.check(rng_ok and cyc_ok, "ksa", fn, "index-and-key-schedule", "i = 0..256 in order zipped with key bytes cycled (key[i mod len])", "mixing pass does not iterate (0..256) zipped with the cycled key", body.loc())
+    st = algos.loop_state(se, head)
+    j = None
+    selfst = None
+    for key, (init, step) in st.items():
+        if key[0] == "local" and strip(init)[:2] == ("int", 0):
+            j = (key, algos.phi_of(se, head, key), step)
+        if key == ("deref", ("param", 1)):
+            selfst = (key, algos.phi_of(se, head, key), init, step)
+    rep.check(j is not None, "ksa", fn, "j-starts-at-0", "j = 0 before mixing", "no mixing counter starting at 0", body.loc())
+    good = False
+    desc = "?"
+    if j is not None and selfst is not None:
+        env = {strip(j[1]): "j", ("field", strip(selfst[1]), si): "S", ("field", elem, 0): "n", strip(("deref", ("field", elem, 1))): "k", ("field", elem, 1): "k"}
+        want_j = wadd(wadd(S("j"), ("idx", S("S"), S("n"))), S("k"))
+        got_j = arith.norm(j[2], env)
+        stp = selfst[3]
+        got_S = None
+        if stp[0] == "upd" and stp[1] == selfst[1] and stp[2] == ("f", si):
+            got_S = arith.norm(stp[3], env)
+        good = got_j == want_j and got_S == ("swap", S("S"), S("n"), want_j)
+        desc = "j' = %s; S' = %s" % (arith.show(got_j), arith.show(got_S)[:120] if got_S else "?")
+    rep.check(good, "ksa", fn, "mixing-step", "j' = j +8 S[n] +8 key byte; swap(S[n], S[j'])", "KSA mixing step is " + desc, body.loc())
